@@ -337,18 +337,35 @@ class Linearizer:
     def feasible(self, cons, nes=()):
         """nes: disequalities [(Lin a, Lin b)] meaning a != b; decided by case split"""
         if nes:
-            a, b = nes[0]
             rest = nes[1:]
+            if len(nes[0]) == 3 and nes[0][0] == 'or':
+                # ('or', [constraints A], [constraints B]): at least one alternative holds (x outside a range)
+                return (self.feasible(list(cons) + list(nes[0][1]), rest) or
+                        self.feasible(list(cons) + list(nes[0][2]), rest))
+            a, b = nes[0]
             return (self.feasible(list(cons) + [b - a - Lin.const(1)], rest) or
                     self.feasible(list(cons) + [a - b - Lin.const(1)], rest))
         rc = self.range_constraints(cons)
         return fm_feasible(list(cons) + rc)
+
+    def range_of(self, e):
+        """(lo, hi_inclusive) linear forms of a constant range expression"""
+        if e[0] == 'agg' and e[1] in ('std::ops::Range', 'std::ops::RangeInclusive'):
+            d = dict(e[2])
+            lo, hi = self.lin(d.get('start')), self.lin(d.get('end'))
+            if lo is not None and hi is not None:
+                return lo, (hi if e[1].endswith('Inclusive') else hi - Lin.const(1))
+        return None
 
     def ne_pair(self, e, val):
         """if boolean expr e having truth value val is a disequality of two linear forms, return them"""
         e = self.pv.inline(e)
         if e[0] == 'un' and e[1] == 'Not':
             return self.ne_pair(e[2], 1 - val)
+        if val == 0 and e[0] == 'call' and isinstance(e[1], str) and e[1].endswith('::contains') and 'ops::Range' in e[1] and len(e[2]) == 2:
+            r, x = self.range_of(self.pv.inline(e[2][0])), self.lin(e[2][1])
+            if r is not None and x is not None:
+                return ('or', [r[0] - x - Lin.const(1)], [x - r[1] - Lin.const(1)])       # x < lo  or  x > hi
         if e[0] == 'bin' and ((e[1] == 'Ne' and val == 1) or (e[1] == 'Eq' and val == 0)):
             la, lb = self.lin(e[2]), self.lin(e[3])
             if la is not None and lb is not None:
@@ -361,6 +378,10 @@ def bool_constraints(L, e, val):
     e = L.pv.inline(e)
     if e[0] == 'un' and e[1] == 'Not':
         return bool_constraints(L, e[2], 1 - val)
+    if val == 1 and e[0] == 'call' and isinstance(e[1], str) and e[1].endswith('::contains') and 'ops::Range' in e[1] and len(e[2]) == 2:
+        r, x = L.range_of(L.pv.inline(e[2][0])), L.lin(e[2][1])
+        if r is not None and x is not None:
+            return [x - r[0], r[1] - x]          # lo <= x <= hi
     if e[0] == 'const' and e[1] in (0, 1):
         # a bool temporary whose value is known on this path (`let ok = a && b;` compiled to branches that store true / false)
         return [] if e[1] == val else [Lin.const(-1)]
